@@ -338,11 +338,19 @@ def rowUnit [Add V] [Sub V] [SMul K V] [Add K] [Div K] [NatCast K] (dot : V → 
   x.map (Path.unitOf dot sqrt)
 /-- `.max()` of an array of norms (non-negative numbers). -/
 def maxOf [NatCast K] [LT K] [DecidableLT K] (x : List K) : K := x.foldl (fun m y => if m < y then y else m) (((0 : Nat) : K))
+/-- `.sum()` of an array of numbers. -/
+def sumOf [NatCast K] [Add K] (x : List K) : K := x.foldl (fun a b => a + b) (((0 : Nat) : K))
+/-- `np.any(x < c) | np.any(x > d)` style tests: some entry satisfies the predicate. -/
+def anyOf (x : List K) (p : K → Bool) : Bool := x.any p
 /-- `np.arange(len(mask))[mask]`. -/
 def whereTrue (mask : List Bool) : List Nat := (List.range mask.length).filter (fun i => mask.getD i false)
 /-- `mask.sum()`. -/
 def countTrue (mask : List Bool) : Nat := mask.count true
 end Np
+
+/-- `interpolate_path` refuses (`ValueError`) arc coordinates below 0 or beyond the arc coordinate of the last image. -/
+def interpRefuses {K : Type} [NatCast K] [LT K] [DecidableLT K] (α targets : List K) : Bool :=
+  targets.any (fun a => decide (a < ((0 : Nat) : K))) || targets.any (fun a => decide (α.getLastD ((0 : Nat) : K) < a))
 
 /-! ### construction: `create_path` / `BasePath.__init__` and the setters of `gradientfxn` / `integratorfxn` -/
 
